@@ -133,6 +133,8 @@ class FakeSelector:
             raise OSError(9, 'simulated selector failure')
         _, dt, outcome = step
         w.clock.t += float(dt)
+        if dt:
+            w.log('T:%d' % int(w.clock.t - 1000.0))
         if outcome is None:
             return False, max_bytes
         w.pending_recv = outcome
@@ -402,6 +404,10 @@ def _canon_write_factory(world):
         # zlib's bytes): Z:<opcode>:<plaintext hex>
         if len(data) >= 2 and (data[0] & 0x40) and (data[0] & 0x0f) in (1, 2) and world.deflate_cfg is not None:
             try:
+                import refcodec
+                fr = refcodec.decode_client_frames(data)
+                if len(fr) != 1 or fr[0]['fin'] != 1 or fr[0]['rsv2'] or fr[0]['rsv3']:
+                    return 'W!bad-compressed-frame:' + data.hex()
                 op, payload = _unmask_frame(data)
                 if world.zpeer is None:
                     world.zpeer = zlib.decompressobj(-15)
@@ -433,28 +439,49 @@ def _unmask_frame(data):
 
 def run_real(sc):
     """Execute the scenario on the real code. Returns the canonical trace line."""
-    world = World(sc)
-    world.canon_write = _canon_write_factory(world)
+    return run_chain([sc])[0]
+
+
+def run_chain(scs):
+    """Execute several scenarios one after the other on ONE WebSocket object (reconnects).
+       Returns the list of canonical trace lines, one per connection."""
     saved = (_session.time, _events.time, _frame.make_masking_key, _websocket.os.urandom)
+    cur = {}
 
     class TimeShim:
         @staticmethod
         def time():
-            return world.clock.t
+            return cur['world'].clock.t
 
     def next_key():
-        k = world.key_ctr
-        world.key_ctr += 1
+        w = cur['world']
+        k = w.key_ctr
+        w.key_ctr += 1
         return test_key(k)
 
-    ws = None
-    gen = None
+    out = []
     try:
         _session.time = TimeShim
         _events.time = TimeShim
         _frame.make_masking_key = next_key
-        _websocket.os.urandom = lambda n: sc.key_bytes()[:n]
-        ws = WebSocket(sc.url, proxies={}, protocols=sc.protocols or None, compress=sc.compress)
+        _websocket.os.urandom = lambda n: cur['sc'].key_bytes()[:n]
+        cur['sc'] = scs[0]
+        cur['world'] = World(scs[0])
+        sc0 = scs[0]
+        ws = WebSocket(sc0.url, proxies={}, protocols=sc0.protocols or None, compress=sc0.compress)
+        for sc in scs:
+            world = World(sc)
+            world.canon_write = _canon_write_factory(world)
+            cur['sc'], cur['world'] = sc, world
+            out.append(_run_one(ws, sc, world))
+    finally:
+        _session.time, _events.time, _frame.make_masking_key, _websocket.os.urandom = saved
+    return out
+
+
+def _run_one(ws, sc, world):
+    gen = None
+    try:
         sess_cls = make_session_class(world)
         kwargs = dict(session_class=sess_cls, poll=float(sc.poll), ping_rate=float(sc.prate),
                       ping_timeout=(float(sc.ptimeout) if sc.ptimeout else None),
@@ -466,9 +493,6 @@ def run_real(sc):
             for a in acts:
                 if a[0] == 'abandon':
                     mech = a[1]
-
-        class Break(Exception):
-            pass
 
         def handle(ev):
             nonlocal idx
@@ -501,6 +525,8 @@ def run_real(sc):
                 iterate(gen)
         except Abandon:
             pass
+        except Exception as e:  # noqa -- an exception escaped the event iterator (C09)
+            world.log('ESCAPED:' + type(e).__name__)
         if mech == 'close':
             gen.close()
         gen = None
@@ -509,8 +535,6 @@ def run_real(sc):
     except ScriptEnd:
         world.log('INCOMPLETE')
         world.recording = False
-    finally:
-        _session.time, _events.time, _frame.make_masking_key, _websocket.os.urandom = saved
     for i, (tok, ev) in enumerate(world.kept):
         if show_event(ev) != tok:
             world.trace.append('MUTATED:%d' % i)
